@@ -244,6 +244,12 @@ def check_windower(run, cx, cfg):
                 if len(gets) == 1 and dict(cond_facts(p)).get(('discr', ('ret', gets[0][0]))) == ('int', 1, 'isize'):
                     chunk = gets
                     chunk_ref = ('ref', (('P', ('field', ('variant', ('ret', gets[0][0]), 1), 0)), ()))
+            if not chunk:
+                # frames.split_at(bin).0
+                sp = [(k, e) for k, e in call_events(p) if rp(e) == SL + 'split_at' and e['args'][0] == ('ref', (('P', fr), ())) and e['args'][1] == b]
+                if len(sp) >= 1:
+                    chunk = sp[:1]
+                    chunk_ref = ('ref', (('P', ('field', ('ret', sp[0][0]), 0)), ()))
             if len(chunk) != 1:
                 bad = 'the chunk must be frames[..bin]'
                 break
@@ -271,6 +277,12 @@ def check_windower(run, cx, cfg):
                     s = lin(cx, p, e['args'][1][2][0])
                     if s is not None and poly.entails_le(s, L):
                         newlen = L - s
+            elif w is not None and w[0] == 'ref' and w[1][0][0] == 'P' and not w[1][1] and w[1][0][1][0] == 'field' and w[1][0][1][2] == 1 and w[1][0][1][1][0] == 'ret' \
+                    and rp(p['events'][w[1][0][1][1][1]]) == SL + 'split_at' and p['events'][w[1][0][1][1][1]]['args'][0] == ('ref', (('P', fr), ())):
+                # frames.split_at(hop).1
+                s = lin(cx, p, p['events'][w[1][0][1][1][1]]['args'][1])
+                if s is not None and poly.entails_le(s, L):
+                    newlen = L - s
             elif w is not None and w[0] == 'ref' and w[1][0][0] == 'P' and w[1][0][1][0] == 'promoted' and w[1][0][1][3].endswith('; 0]'):
                 newlen = Aff.const(0)
             if newlen is None:
